@@ -35,6 +35,7 @@ fn make_ctx(id: &str, tier: &str) -> Ctx {
 }
 
 fn main() {
+    util::install_logger();
     let args: Vec<String> = std::env::args().collect();
     if args.len() < 2 {
         usage();
